@@ -1,5 +1,5 @@
 from .. import facts
-from ..rules import opacity, filt, sampling, codec, alloc, geometry
+from ..rules import opacity, filt, sampling, codec, alloc, geometry, tables
 
 
 def run(ck):
@@ -11,6 +11,8 @@ def run(ck):
     sampling.r4_enum_exhaustive(ck, P)
     filt.r_axis_consistency(ck, P, 'C08-R5')
     geometry.r_wide_division_numerator(ck, P, 'C08-R21')
+    tables.r16_repeat_of_row_matches_padding_source(ck, P)
+    filt.r15_window_from_the_rounded_position(ck, P)
     alloc.r9_failure_is_atomic(ck, P, 'C08-R20')     # a refused set_filter must not leave the new filter kind behind: the image would be sampled with a filter it was never given
     sampling.r6_coordinate_siblings(ck, P)
     filt.r7_signed_totals(ck, P, 'C08-R7')
